@@ -264,7 +264,17 @@ func ruleDequeIndexDiscipline(c *Ctx, r *R) {
 					oldLen = (a0.op == "call" && a0.s == "Len") || a0.inl == "Len" || a0.op == "leaf" // the old length (read before d.a is replaced - checked by resize-only)
 				}
 				_, mod := e.modLen("a")
-				r.ok(e.op == "const" || other || oldLen || mod, key, x.Pos(), f+" is assigned "+e.String()+", which is neither a constant, the other end, nor reduced modulo len(d.a): the index can leave the buffer")
+				okEnd := e.op == "const" || other || oldLen || mod
+				if !okEnd && e.op == "phi" {
+					okEnd = true
+					for _, a := range sxAlternatives(e, "a") {
+						_, am := a.modLen("a")
+						if !(a.op == "const" || a.fieldSuffix("front") || a.fieldSuffix("back") || am) {
+							okEnd = false
+						}
+					}
+				}
+				r.ok(okEnd, key, x.Pos(), f+" is assigned "+e.String()+", which is neither a constant, the other end, nor reduced modulo len(d.a): the index can leave the buffer")
 			case *ssa.IndexAddr:
 				fld, base, ok := rootField(x.X)
 				if !ok || fld != "a" || !isNamedType(base.Type(), "container/deque", "Deque") {
@@ -275,6 +285,15 @@ func ruleDequeIndexDiscipline(c *Ctx, r *R) {
 				key := name + "|index:" + e.String() + "#" + itoa(k)
 				_, mod := e.modLen("a")
 				okIdx := e.fieldSuffix("front") || e.fieldSuffix("back") || isIterPosition(x.Index) || mod
+				if !okIdx && e.op == "phi" {
+					okIdx = true
+					for _, a := range sxAlternatives(e, "a") {
+						_, am := a.modLen("a")
+						if !(a.fieldSuffix("front") || a.fieldSuffix("back") || am) {
+							okIdx = false
+						}
+					}
+				}
 				if p, isP := resolveVal(x.Index).(*ssa.Parameter); isP && !okIdx && fn.Parent() == nil && !token.IsExported(fn.Name()) {
 					// the index is a parameter of an unexported helper: every call site hands in front, back or a reduced index
 					pi := -1
@@ -485,18 +504,19 @@ func ruleDequeStepDirection(c *Ctx, r *R) {
 			if _, f, ok := storedField(st.Addr); !ok || f != spec[1] {
 				return
 			}
-			e := symOf(st.Val, provEnv{})
-			inner, ok := e.modLen("a")
-			if !ok {
-				return // constant / other-end assignment
-			}
-			found = true
-			if len(inner.args) != 2 || !inner.args[0].fieldSuffix(spec[1]) || !inner.args[1].isConst(1) {
-				good = false
-				return
-			}
-			if (spec[2] == "+" && inner.op != "+") || (spec[2] == "-" && inner.op != "-") {
-				good = false
+			for _, e := range sxAlternatives(symOf(st.Val, provEnv{}), "a") {
+				inner, ok := e.modLen("a")
+				if !ok {
+					continue // constant / other-end assignment
+				}
+				found = true
+				if len(inner.args) != 2 || !inner.args[0].fieldSuffix(spec[1]) || !inner.args[1].isConst(1) {
+					good = false
+					continue
+				}
+				if (spec[2] == "+" && inner.op != "+") || (spec[2] == "-" && inner.op != "-") {
+					good = false
+				}
 			}
 		})
 		r.ok(found && good, "deque.Deque."+spec[0]+"|step", fn.Pos(), spec[0]+" must move "+spec[1]+" by "+spec[2]+"1 (the direction is fixed by what front/back and push/pop mean)")
@@ -1078,4 +1098,20 @@ func isIntCursorField(fn *ssa.Function, f string, cursorPaths map[string]bool) b
 		}
 	}
 	return false
+}
+
+// sxAlternatives: the alternatives of a value chosen by control flow (`newBack := d.front; if d.back != -1 { newBack = ... }`): a
+// merge whose every alternative is acceptable is acceptable. The positive-modulo idiom is itself a merge and is kept whole.
+func sxAlternatives(e *sx, field string) []*sx {
+	if e == nil || e.op != "phi" || len(e.args) == 0 {
+		return []*sx{e}
+	}
+	if _, isMod := e.modLen(field); isMod {
+		return []*sx{e}
+	}
+	var out []*sx
+	for _, a := range e.args {
+		out = append(out, sxAlternatives(a, field)...)
+	}
+	return out
 }
